@@ -66,4 +66,23 @@ theorem bshapeRev_none_of_mismatch : ∀ (ra rb : List Nat) (k x y : Nat),
 theorem bdim_none {x y : Nat} (hxy : x ≠ y) (hx : x ≠ 1) (hy : y ≠ 1) : bdim x y = none := by
   simp [bdim, hxy, hx, hy]
 
+
+theorem sum_map_const (l : List Nat) (c : Nat) : (l.map (fun _ => c)).sum = l.length * c := by
+  induction l with
+  | nil => simp
+  | cons a t ih => simp [ih, Nat.add_mul, Nat.add_comm]
+
+theorem allIdx_length (s : List Nat) : (allIdx s).length = prod s := by
+  induction s with
+  | nil => rfl
+  | cons a t ih =>
+    simp only [allIdx, List.length_flatMap, List.length_map, ih, prod]
+    rw [sum_map_const]; simp
+
+/-- an array value is well formed when it has as many elements as its shape demands -/
+def WF (a : ArrV) : Prop := a.2.length = prod a.1
+
+theorem tabulate_wf (r : List Nat) (f : List Nat → Nat) : WF (tabulate r f) := by
+  simp [WF, tabulate, allIdx_length]
+
 end NmVerif.KindRefs
